@@ -574,6 +574,87 @@ impl Sink for RecSink {
     }
 }
 
+/// Forwards every callback to a real sink (e.g. a printer's) and records the callbacks and the first index at
+/// which the inner sink answered "stop".
+pub struct TapSink<S: Sink<Error = io::Error>> {
+    pub inner: S,
+    pub rec: RecSink,
+    pub first_stop: Option<usize>,
+}
+
+impl<S: Sink<Error = io::Error>> TapSink<S> {
+    pub fn new(inner: S) -> TapSink<S> {
+        TapSink { inner, rec: RecSink::new(Script::All), first_stop: None }
+    }
+    fn note(&mut self, r: Result<bool, io::Error>) -> Result<bool, io::Error> {
+        if let Ok(false) = r {
+            if self.first_stop.is_none() {
+                self.first_stop = Some(self.rec.events.len() - 1);
+            }
+        }
+        r
+    }
+}
+
+impl<S: Sink<Error = io::Error>> Sink for TapSink<S> {
+    type Error = io::Error;
+    fn matched(&mut self, s: &Searcher, m: &SinkMatch<'_>) -> Result<bool, io::Error> {
+        let _ = self.rec.matched(s, m);
+        let r = self.inner.matched(s, m);
+        self.note(r)
+    }
+    fn context(&mut self, s: &Searcher, c: &SinkContext<'_>) -> Result<bool, io::Error> {
+        let _ = self.rec.context(s, c);
+        let r = self.inner.context(s, c);
+        self.note(r)
+    }
+    fn context_break(&mut self, s: &Searcher) -> Result<bool, io::Error> {
+        let _ = self.rec.context_break(s);
+        let r = self.inner.context_break(s);
+        self.note(r)
+    }
+    fn binary_data(&mut self, s: &Searcher, off: u64) -> Result<bool, io::Error> {
+        let _ = self.rec.binary_data(s, off);
+        let r = self.inner.binary_data(s, off);
+        self.note(r)
+    }
+    fn begin(&mut self, s: &Searcher) -> Result<bool, io::Error> {
+        let _ = self.rec.begin(s);
+        let r = self.inner.begin(s);
+        self.note(r)
+    }
+    fn finish(&mut self, s: &Searcher, f: &SinkFinish) -> Result<(), io::Error> {
+        let _ = self.rec.finish(s, f);
+        self.inner.finish(s, f)
+    }
+}
+
+/// one character per callback of a run: b begin, m matched, a/c/o after/before/other context, k break,
+/// n binary notice, f finish
+pub fn kinds_str(evs: &[&str]) -> String {
+    evs.iter()
+        .map(|e| {
+            if *e == "begin" {
+                'b'
+            } else if e.starts_with("m ") {
+                'm'
+            } else if e.starts_with("c a") {
+                'a'
+            } else if e.starts_with("c b") {
+                'c'
+            } else if e.starts_with("c o") {
+                'o'
+            } else if *e == "brk" {
+                'k'
+            } else if e.starts_with("bin ") {
+                'n'
+            } else {
+                'f'
+            }
+        })
+        .collect()
+}
+
 // ---------------------------------------------------------------- strategies
 
 /// `Read` wrapper handing out at most `chunk` bytes per call; optionally fails at read call `fail_at`.
